@@ -314,3 +314,15 @@ Definition conc_ok (w : list Z) : Prop :=
 Definition conc_spec : Prop := exists w, conc_ok w.
 
 End Conc.
+
+(* ======================================================================================== *)
+(* 4. rushed runs ("nothing is delivered after Close returns", under races).  Subscribe (of
+      unbuffered channels nobody reads), Broadcast and Close are called back to back by one
+      goroutine, or all at once from several; only AFTER Close (and every other call) has
+      returned does a consumer start receiving from each channel.  Whatever such a consumer
+      receives was handed over after Close had returned.  [late] = per subscriber, what its
+      consumer received (over all repetitions of the run). *)
+
+Definition is_nil (l : list Z) : bool := match l with [] => true | _ => false end.
+Definition rush_oracle (late : list (list Z)) : bool := forallb is_nil late.
+Definition rush_spec (late : list (list Z)) : Prop := forall l, In l late -> l = [].
